@@ -370,7 +370,9 @@ fn short_circuit_templates(rep: &mut Report) {
         };
         // C04 permits reporting an operation on constants that always fails at parse time "even if the hidden-constant
         // twin would not reach it": such a rejection is not judged; a wrong value, or effects of the guarded operand, are
-        if got.starts_with("rejected-runtime-error:") {
+        if got.starts_with("panic:") && got != "panic:Panic" {
+            rep.inconclusive("template:resource-or-fuel");
+        } else if got.starts_with("rejected-runtime-error:") {
             rep.count("short-circuit-templates:permitted-parse-time-error");
         } else if got != want {
             rep.violation(&format!("c07:short-circuit-template:{}", truncate(src, 60)), &format!("`{src}` gave {got}, expected {want} (the deciding left operand guards the right one)"), "diff", &format!("#template {want}\n{src}\n"));
@@ -408,7 +410,9 @@ fn dead_branch_templates(rep: &mut Report) {
         };
         // (a parse-time report of a constant operation that always fails is permitted by C04 even in a branch that is
         // never taken; only a wrong value is judged)
-        if got.starts_with("rejected-runtime-error:") {
+        if got.starts_with("panic:") && got != "panic:Panic" {
+            rep.inconclusive("template:resource-or-fuel");
+        } else if got.starts_with("rejected-runtime-error:") {
             rep.count("dead-branch-templates:permitted-parse-time-error");
         } else if got != want {
             rep.violation(&format!("c12:dead-branch-template:{}", truncate(src, 60)), &format!("`{src}` gave {got}, expected {want} (only the chosen branch is run)"), "diff", &format!("#template {want}\n{src}\n"));
@@ -444,6 +448,10 @@ fn closure_creation_templates(rep: &mut Report) {
             Outcome::Value(v) => canon(v),
             other => other.tag(),
         };
+        if got.starts_with("panic:") && got != "panic:Panic" {
+            rep.inconclusive("template:resource-or-fuel");
+            continue;
+        }
         if got != want {
             rep.violation(&format!("c06:closure-creation-template:{}", truncate(src, 60)), &format!("`{src}` gave {got}, expected {want} (each function value captures the values of its own creation)"), "diff", &format!("#template {want}\n{src}\n"));
         }
@@ -490,6 +498,10 @@ fn identity_twin_templates(rep: &mut Report) {
             other => other.tag(),
         };
         let (a, b) = (show(&lit), show(&hid));
+        if [&a, &b].iter().any(|x| x.starts_with("panic:") && *x != "panic:Panic") {
+            rep.inconclusive("template:resource-or-fuel");
+            continue;
+        }
         if a != b {
             rep.violation(&format!("c04:identity-twin-template:{}", truncate(tpl, 60)), &format!("literal twin `{lit}` gave {a}; hidden twin gave {b}"), "diff", &format!("#template {b}\n{lit}\n"));
         }
